@@ -577,6 +577,17 @@ func runBubble(t *testing.T, cs caseSpec, x *runner, cr *caseResult) {
 			}
 			cr.Inconclusive = "bubble did not end cleanly: " + s
 			cr.Verdicts = nil
+			// which engine goroutines are left behind (they stay parked in the dead bubble)
+			buf := make([]byte, 1<<20)
+			buf = buf[:runtime.Stack(buf, true)]
+			for _, g := range strings.Split(string(buf), "\n\n") {
+				if strings.Contains(g, "synctest bubble") && strings.Contains(g, "hydraide/app/") {
+					if len(g) > 1500 {
+						g = g[:1500]
+					}
+					cr.Notes = append(cr.Notes, "left behind: "+g)
+				}
+			}
 		}
 		for _, n := range []string{"swamp.closeListener.afterRead", "swamp.closeListener.beforeClose", "swamp.autodestroy.beforeDestroy", "swamp.destroy.afterDrain", "hydra.summon.beforeRelease"} {
 			cr.HookHits[n] = verifhook.Hits(n)
@@ -642,7 +653,8 @@ func runBubble(t *testing.T, cs caseSpec, x *runner, cr *caseResult) {
 			var closeMu sync.Mutex
 			verifhook.Set("swamp.closeListener.beforeClose", func(...any) {
 				closeMu.Lock()
-				cr.CloseTicks = append(cr.CloseTicks, time.Now().Sub(t0).String())
+				// (a forced case holds the listener for 1 ms after its tick: the tick is the full second)
+				cr.CloseTicks = append(cr.CloseTicks, time.Now().Sub(t0).Truncate(time.Second).String())
 				closeMu.Unlock()
 				if cs.Forced == "beforeClose" && time.Now().Equal(raceAt) && !fired.Swap(true) {
 					// this point is reached with closeWriteMutex held; the write listener, whose tick falls
@@ -704,17 +716,24 @@ func runBubble(t *testing.T, cs caseSpec, x *runner, cr *caseResult) {
 				})
 				x.launch(fl, []opSpec{*cs.Trigger}, "trigger")
 			case "parked":
-				// the first racer is held between obtaining the swamp from hydra and its BeginVigil;
-				// the trigger runs completely inside that window
-				parkArm.Store(true)
-				verifhook.Set("hydra.summon.beforeRelease", func(...any) {
-					if parkArm.Swap(false) {
-						fired.Store(true)
-						x.launch(fl, []opSpec{*cs.Trigger}, "trigger")
+				// the remover has seen the swamp empty and is held for 1 ms; the racers start; the first of
+				// them is held for 2 ms between obtaining the swamp from hydra and its BeginVigil (it owns
+				// hydra's summon slot meanwhile, so the other racers queue behind it); the remover resumes
+				// and runs the whole auto-destroy while that racer holds the swamp without a vigil
+				var parked atomic.Bool
+				verifhook.Set("swamp.autodestroy.beforeDestroy", func(...any) {
+					if !parked.Load() && !parkArm.Swap(true) {
+						x.launch(fl, cs.Writers, "racer")
 						time.Sleep(time.Millisecond)
 					}
 				})
-				x.launch(fl, cs.Writers, "racer")
+				verifhook.Set("hydra.summon.beforeRelease", func(...any) {
+					if parkArm.Load() && !parked.Swap(true) {
+						fired.Store(true)
+						time.Sleep(2 * time.Millisecond)
+					}
+				})
+				x.launch(fl, []opSpec{*cs.Trigger}, "trigger")
 			}
 		case "stop":
 			switch cs.Forced {
